@@ -41,11 +41,10 @@ SPEC = {
     "nontrivial": lambda ln: " - " not in ln.split("|")[0][:40] and len(ln.split(" ")) > 6 and ln.split(" ")[2] != "-",
     "trusted_base": [
         "spec_simple / spec_nts_dc / spec_nts are the placement rules transcribed from the property text (SimpleStrategy: first RF distinct nodes clockwise; NTS: per datacenter, rack new or repeats allowed, until min(RF, nodes))",
-        "landing index of std's binary_search_by on equal tokens (last equal element, rustc 1.95) is modelled as observed; only rings with a repeated token depend on it",
         "hook scylla::cluster::verif_state::cluster_state (ClusterState::new's steps with pool-less Node objects) and scylla::routing::verif_locator::choose_filtered (scripted rand draws)",
     ],
     "assumptions": [
-        "theorems comparing with the specification, precomputed = on-the-fly for SimpleStrategy and the ring-ordered view assume no token twice on the global ring; the NTS theorems only no token twice inside a datacenter",
+        "the only hypothesis on the ring is sorted_weak (what TokenRing::new produces, C04_ring); tokens may repeat: the walk starts at the first member with token >= t and members sharing a token keep insertion order",
         "NTS strategy maps have one entry per datacenter (HashMap)",
         "random index of ReplicaSet::choose is an oracle: C04_views_choose holds for every index",
         "tablets-based tables are outside C04 (C15)",
